@@ -97,6 +97,20 @@ def query_from_ref(rng, ref, kind, refs=None):
             sub2 = [sub2[-1] - x + sub2[0] for x in reversed(sub2)]
         base = (max(q) if q else 0) + rng.randint(2000, 9000)
         q += [base + (p - sub2[0]) for p in sub2]
+    elif kind == 'sandwich':
+        # aligned middle with two unaligned flanks of >= 8 labels each: yields two second-pass fragments of one query
+        def flank(base):
+            src = rng.choice(refs)[2] if refs else ref
+            m = rng.randint(8, 12)
+            s3 = rng.randint(0, max(0, len(src) - m - 1))
+            part = src[s3:s3 + m]
+            if rng.random() < 0.5:
+                part = [part[-1] - x + part[0] for x in reversed(part)]
+            return [base + (x - part[0]) for x in part]
+        left = flank(0.0)
+        shift_ = left[-1] + rng.randint(3000, 9000)
+        q = left + [x + shift_ for x in q]
+        q = q + flank(max(q) + rng.randint(3000, 9000))
     elif kind == 'indel':
         k = len(q) // 2
         d = rng.choice([-1, 1]) * rng.randint(2000, 40000)
